@@ -539,8 +539,257 @@ struct Run {
         return false;
     }
 
+    // ---- HUGE views (fix-miss round 4) -------------------------------------------------------------------------
+    // A "big view" argument is `<explicit prefix list> <length>`: a view of <length> characters (up to 2^33+16) at the
+    // start of a zero-filled MAP_NORESERVE mapping whose first characters are the explicit prefix.  Nothing but the
+    // explicit prefix is ever written, and the operations below read only min(size) characters (or a few characters
+    // at a far position, which maps the shared zero page), so views whose lengths differ by 2^31, 2^32, ... exist
+    // without the memory.  Both legs run on the SAME views.
+    struct BigMap {
+        static constexpr std::size_t cap = (std::size_t{1} << 33) + 16;
+        static Char* get(int which)
+        {
+            static Char* m[2] = {nullptr, nullptr};
+            if (m[which] == nullptr) {
+                void* r = mmap(nullptr, cap * sizeof(Char), PROT_READ | PROT_WRITE,
+                    MAP_PRIVATE | MAP_ANONYMOUS | MAP_NORESERVE, -1, 0);
+                if (r == MAP_FAILED) { return nullptr; }
+                m[which] = static_cast<Char*>(r);
+            }
+            return m[which];
+        }
+    };
+    struct BigArg {
+        Char* p       = nullptr;
+        std::size_t n = 0;
+        std::size_t w = 0; // explicit characters written (zeroed again afterwards)
+        bool bad      = false;
+        BigArg(Toks& in, int which)
+        {
+            auto pre = in.list();
+            n        = static_cast<std::size_t>(in.unum());
+            p        = BigMap::get(which);
+            if (p == nullptr || n > BigMap::cap || pre.size() > 256) {
+                bad = true;
+                return;
+            }
+            w = pre.size();
+            for (std::size_t i = 0; i < w; ++i) { p[i] = static_cast<Char>(pre[i]); }
+        }
+        BigArg(BigArg const&)                    = delete;
+        auto operator=(BigArg const&) -> BigArg& = delete;
+        ~BigArg()
+        {
+            if (p != nullptr) {
+                for (std::size_t i = 0; i < w; ++i) { p[i] = Char{}; }
+            }
+        }
+    };
+    // offset and size of a result view; its characters only when there are at most 16
+    template <typename V>
+    static void put_big(Out& o, V const& sub, Char const* origin)
+    {
+        o.tok("ok").num(static_cast<i64>(sub.data() - origin)).unum(sub.size());
+        if (sub.size() > 16) {
+            o.tok("long");
+            return;
+        }
+        for (std::size_t i = 0; i < sub.size(); ++i) { o.num(static_cast<i64>(sub.data()[i])); }
+    }
+
+    static bool big(std::string const& what, Toks& in, Out& impl, Out& ref)
+    {
+        auto pc = [&](std::size_t& p, std::size_t& k) {
+            p = static_cast<std::size_t>(in.unum());
+            k = static_cast<std::size_t>(in.unum());
+        };
+        std::size_t p1 = 0;
+        std::size_t k1 = 0;
+        std::size_t p2 = 0;
+        std::size_t k2 = 0;
+        if (what == "probe") {
+            bool const ok = BigMap::get(0) != nullptr && BigMap::get(1) != nullptr && sizeof(std::size_t) == 8;
+            impl.tok("ok").b(ok);
+            ref.tok("ok").b(true);
+            return true;
+        }
+        BigArg a(in, 0);
+        if (a.bad) {
+            impl.tok("bad-case");
+            return true;
+        }
+        E const ea(a.p, a.n);
+        S const sa(a.p, a.n);
+        // ---- one big view and scalars
+        if (what == "substr") {
+            pc(p1, k1);
+            guarded(impl, [&](Out& o) { put_big(o, ea.substr(p1, k1), a.p); });
+            if (p1 <= a.n) { put_big(ref, sa.substr(p1, k1), a.p); }
+            return true;
+        }
+        if (what == "rmpre" || what == "rmsuf") {
+            auto n = static_cast<std::size_t>(in.unum());
+            guarded(impl, [&](Out& o) {
+                auto v = ea;
+                if (what == "rmpre") {
+                    v.remove_prefix(n);
+                } else {
+                    v.remove_suffix(n);
+                }
+                put_big(o, v, a.p);
+            });
+            if (n <= a.n) {
+                auto v = sa;
+                if (what == "rmpre") {
+                    v.remove_prefix(n);
+                } else {
+                    v.remove_suffix(n);
+                }
+                put_big(ref, v, a.p);
+            }
+            return true;
+        }
+        if (what == "copy") {
+            auto cnt         = static_cast<std::size_t>(in.unum());
+            auto pos         = static_cast<std::size_t>(in.unum());
+            auto const avail = pos <= a.n ? a.n - pos : std::size_t{0};
+            auto const rlen  = cnt < avail ? cnt : avail;
+            if (rlen > 64) {
+                impl.tok("bad-case");
+                return true;
+            }
+            std::vector<i64> room(rlen, 1);
+            auto run = [&](Out& o, auto view, Block<Char>& dest) {
+                auto r = view.copy(dest.p, cnt, pos);
+                o.tok("ok").unum(r);
+                for (std::size_t i = 0; i < r && i < room.size(); ++i) { o.num(static_cast<i64>(dest.p[i])); }
+#if !defined(__SANITIZE_ADDRESS__)
+                for (std::size_t i = 0; i < 8; ++i) {
+                    if (dest.p[room.size() + i] != static_cast<Char>(2)) {
+                        o.tok("wrote-past-rlen-at").unum(room.size() + i);
+                        break;
+                    }
+                }
+#endif
+            };
+            {
+                Block<Char> dest(room, {2});
+                guarded(impl, [&](Out& o) { run(o, ea, dest); });
+            }
+            if (pos <= a.n) {
+                Block<Char> dest(room, {2});
+                run(ref, sa, dest);
+            }
+            return true;
+        }
+        if (what == "at" || what == "back") {
+            auto pos = what == "at" ? static_cast<std::size_t>(in.unum()) : std::size_t{0};
+            guarded(impl, [&](Out& o) {
+                auto const& r = what == "back" ? ea.back() : ea[pos];
+                o.tok("ok").num(static_cast<i64>(r)).num(static_cast<i64>(&r - a.p));
+            });
+            if (what == "at" ? pos < a.n : a.n != 0) {
+                auto const& r = what == "back" ? sa.back() : sa[pos];
+                ref.tok("ok").num(static_cast<i64>(r)).num(static_cast<i64>(&r - a.p));
+            }
+            return true;
+        }
+        // ---- a big view and a C string (small, in its own guarded block)
+        if (what == "cmpp" || what == "cmp3p" || what == "cmp4p" || what == "startsp" || what == "endsp"
+            || what == "relpl" || what == "relpr") {
+            if (what == "cmp3p" || what == "cmp4p") { pc(p1, k1); }
+            auto s = in.list();
+            if (what == "cmp4p") { k2 = static_cast<std::size_t>(in.unum()); }
+            Block<Char> bs(what == "cmp4p" ? s : with_nul(s), s);
+            Char const* ptr = bs.p;
+            if (what == "cmpp") {
+                guarded(impl, [&](Out& o) { o.tok("ok").num(sign(ea.compare(ptr))); });
+                ref.tok("ok").num(sign(sa.compare(ptr)));
+            } else if (what == "cmp3p") {
+                guarded(impl, [&](Out& o) { o.tok("ok").num(sign(ea.compare(p1, k1, ptr))); });
+                if (p1 <= a.n) { ref.tok("ok").num(sign(sa.compare(p1, k1, ptr))); }
+            } else if (what == "cmp4p") {
+                guarded(impl, [&](Out& o) { o.tok("ok").num(sign(ea.compare(p1, k1, ptr, k2))); });
+                if (p1 <= a.n && k2 <= s.size()) { ref.tok("ok").num(sign(sa.compare(p1, k1, ptr, k2))); }
+            } else if (what == "startsp") {
+                guarded(impl, [&](Out& o) { o.tok("ok").b(ea.starts_with(ptr)); });
+                ref.tok("ok").b(sa.starts_with(ptr));
+            } else if (what == "endsp") {
+                guarded(impl, [&](Out& o) { o.tok("ok").b(ea.ends_with(ptr)); });
+                ref.tok("ok").b(sa.ends_with(ptr));
+            } else if (what == "relpl") {
+                guarded(impl, [&](Out& o) { rel_out(o, ptr, ea); });
+                rel_out(ref, ptr, sa);
+            } else {
+                guarded(impl, [&](Out& o) { rel_out(o, ea, ptr); });
+                rel_out(ref, sa, ptr);
+            }
+            return true;
+        }
+        // ---- two big views (separate mappings)
+        if (what == "cmp3" || what == "cmp5") { pc(p1, k1); }
+        BigArg b(in, 1);
+        if (b.bad) {
+            impl.tok("bad-case");
+            return true;
+        }
+        if (what == "cmp5") { pc(p2, k2); }
+        E const eb(b.p, b.n);
+        S const sb(b.p, b.n);
+        if (what == "cmp") {
+            guarded(impl, [&](Out& o) { o.tok("ok").num(sign(ea.compare(eb))); });
+            ref.tok("ok").num(sign(sa.compare(sb)));
+            return true;
+        }
+        if (what == "cmp3") {
+            guarded(impl, [&](Out& o) { o.tok("ok").num(sign(ea.compare(p1, k1, eb))); });
+            if (p1 <= a.n) { ref.tok("ok").num(sign(sa.compare(p1, k1, sb))); }
+            return true;
+        }
+        if (what == "cmp5") {
+            guarded(impl, [&](Out& o) { o.tok("ok").num(sign(ea.compare(p1, k1, eb, p2, k2))); });
+            if (p1 <= a.n && p2 <= b.n) { ref.tok("ok").num(sign(sa.compare(p1, k1, sb, p2, k2))); }
+            return true;
+        }
+        if (what == "rel") {
+            guarded(impl, [&](Out& o) { rel_out(o, ea, eb); });
+            rel_out(ref, sa, sb);
+            return true;
+        }
+        // the six search families: a huge haystack searched forwards from a position near its end or backwards from
+        // a small position (the index range the search may visit is at most 4096 characters; bad-case otherwise)
+        if (what == "find" || what == "rfind" || what == "ffo" || what == "ffno" || what == "flo" || what == "flno") {
+            auto pos           = static_cast<std::size_t>(in.unum());
+            bool const forward = what == "find" || what == "ffo" || what == "ffno";
+            auto const range   = forward ? (pos > a.n ? std::size_t{0} : a.n - pos) : (pos < a.n ? pos : a.n);
+            bool const byset = what != "find" && what != "rfind";
+            if (range > 4096 || (b.n > 64 && (byset || a.n > 4096))) {
+                impl.tok("bad-case");
+                return true;
+            }
+            auto call = [&](auto const& hv, auto const& nv) -> std::size_t {
+                if (what == "find") { return hv.find(nv, pos); }
+                if (what == "rfind") { return hv.rfind(nv, pos); }
+                if (what == "ffo") { return hv.find_first_of(nv, pos); }
+                if (what == "ffno") { return hv.find_first_not_of(nv, pos); }
+                if (what == "flo") { return hv.find_last_of(nv, pos); }
+                return hv.find_last_not_of(nv, pos);
+            };
+            guarded(impl, [&](Out& o) { o.tok("ok").unum(call(ea, eb)); });
+            ref.tok("ok").unum(call(sa, sb));
+            return true;
+        }
+        if (what == "starts" || what == "ends") {
+            guarded(impl, [&](Out& o) { o.tok("ok").b(what == "starts" ? ea.starts_with(eb) : ea.ends_with(eb)); });
+            ref.tok("ok").b(what == "starts" ? sa.starts_with(sb) : sa.ends_with(sb));
+            return true;
+        }
+        return false;
+    }
+
     static bool run(std::string const& op, Toks& in, Out& impl, Out& ref)
     {
+        if (op.rfind("big", 0) == 0) { return big(op.substr(3), in, impl, ref); }
         auto us      = op.find('_');
         auto base    = us == std::string::npos ? op : op.substr(0, us);
         auto variant = us == std::string::npos ? std::string{} : op.substr(us + 1);
